@@ -19,7 +19,7 @@ func init() {
 	register(&Check{
 		ID:    "C04",
 		Title: "Decoding never panics, whatever bytes arrive",
-		Level: "exploration",
+		Level: "model_checking",
 		Rule: "odometers over raw input families, each enumerated completely: F1 every byte string of length <=2 (quick; 3 bytes over a 24-letter alphabet) / <=3 (thorough) as a stream, and every string of length <=2 to each of the 16 UnmarshalBinary methods; " +
 			"F2 46 first bytes (every type with flag nibbles 0 and 2, PUBLISH with all 16) x every body of length <=5 (quick) / <=6 (thorough) over the 12-byte alphabet {00,01,02,03,04,05,0b,1f,26,7f,80,ff} with a consistent remaining length, bodies <=4 also directly to UnmarshalBinary; " +
 			"F3 every prefix of every frame of the valid corpus V (stream ends; remaining length rewritten; body prefix to UnmarshalBinary); F4 every frame of V x every length field of its field map (remaining length, property length, string/binary prefixes, varints) x {-2,-1,+1,+2,0,1,max,max-1..max-4,7f,80,ff,100,3fff,4000,7fff,8000}; F5 every other type nibble x every body of V; F6 every frame of V with one more property (each of the 27 defined identifiers, zero and non-zero value) inserted at every property boundary of every property section, lengths kept consistent (duplicates, second occurrences of other lengths, properties foreign to the packet); F7 every frame of V with every single body byte replaced by each letter of the 12-byte alphabet (quick) / by every other value (thorough). " +
